@@ -251,8 +251,14 @@ def gen_pratt():
     pnot = int(m.group(1))
     mm = re.findall(r"let expr = self\.parse_expr_bp\((\d+)\)\?;\s*(?://[^\n]*\n\s*)*Ok\(Expr::UnaryOp\s*\{\s*op: UnaryOperator::(Plus|Minus)", prefix)
     need({x[1] for x in mm} == {"Plus", "Minus"}, f"parse_prefix: unary +/- arms: {mm}")
-    loop = fn_body(src, r"fn parse_expr_bp\(&mut self, min_bp: u8\) -> ParseResult<Expr> \{", "parse_expr_bp")
-    need(re.search(r"if l_bp < min_bp \{\s*break;", loop), "parse_expr_bp: stop condition is not `l_bp < min_bp`")
+    # parse_expr_bp is the depth-bounded wrapper of parse_expr_bp_bounded, which holds the prefix + infix loop
+    wrapper = fn_body(src, r"fn parse_expr_bp\(&mut self, min_bp: u8\) -> ParseResult<Expr> \{", "parse_expr_bp")
+    need(re.search(r"let result = self\.parse_expr_bp_bounded\(min_bp\);", wrapper) and re.search(r"\n\s*result\s*$", wrapper.rstrip("}").rstrip()),
+         "parse_expr_bp: is not a plain wrapper of parse_expr_bp_bounded")
+    loop = fn_body(src, r"fn parse_expr_bp_bounded\(&mut self, min_bp: u8\) -> ParseResult<Expr> \{", "parse_expr_bp_bounded")
+    need(re.search(r"let mut lhs = self\.parse_prefix\(\)\?;", loop), "parse_expr_bp_bounded: prefix step")
+    need(re.search(r"if l_bp < min_bp \{\s*break;", loop), "parse_expr_bp_bounded: stop condition is not `l_bp < min_bp`")
+    need(re.search(r"lhs = self\.parse_infix\(lhs, r_bp\)\?;", loop), "parse_expr_bp_bounded: infix step")
     L = ["(* GENERATED by tools/gen_tables.py from sql/parser/mod.rs -- do not edit *)",
          "From Coq Require Import NArith.", "From Axv Require Import Model.PrattOps.", "Open Scope N_scope.",
          "Definition infix_bp (o : pbinop) : N * N :=\n  match o with"]
